@@ -3,6 +3,7 @@ package props
 import (
 	"bytes"
 	"fmt"
+	"github.com/robfig/soy/ast"
 	"os"
 	"os/exec"
 	"path/filepath"
@@ -375,6 +376,61 @@ func c11Transform(kind string, braced string, form int) string {
 	return braced
 }
 
+// c11ManyLocales: one provider over catalogues for three languages, asked for hundreds of regional locales that
+// have no catalogue of their own, twice over: each request is answered with the catalogue of its own language, however
+// many other locales were asked for before.
+func c11ManyLocales(ctx *fw.Ctx) *fw.Result {
+	dir, err := os.MkdirTemp("", "c11loc")
+	if err != nil {
+		return &fw.Result{Verdict: fw.Inconclusive, Key: "tempdir", Msg: err.Error()}
+	}
+	defer os.RemoveAll(dir)
+	reg, err := compileRegistry([]srcFile{{"loc.soy", "{namespace loc}\n/** */\n{template .t}{msg desc=\"greeting\"}hello{/msg}{/template}\n"}}, nil)
+	if err != nil {
+		return &fw.Result{Verdict: fw.Inconclusive, Key: "locale-template", Msg: err.Error()}
+	}
+	var id uint64
+	walkAst(reg.Templates[0].Node, func(n ast.Node) {
+		if m, ok := n.(*ast.MsgNode); ok {
+			id = m.ID
+		}
+	})
+	langs := []string{"en", "fr", "de", "pt", "es"}
+	for _, l := range langs {
+		po := "msgid \"\"\nmsgstr \"\"\n\"Content-Type: text/plain; charset=UTF-8\\n\"\n\n#. greeting\n#: id=" + strconv.FormatUint(id, 10) + "\nmsgid \"hello\"\nmsgstr \"[" + l + "] hello\"\n"
+		os.WriteFile(filepath.Join(dir, l+".po"), []byte(po), 0644)
+	}
+	prov, err := pomsg.Dir(dir)
+	if err != nil {
+		return &fw.Result{Verdict: fw.Violated, Key: "catalogue-not-loadable", Case: dir, Msg: err.Error()}
+	}
+	tofu := soyhtml.NewTofu(reg)
+	regions := strings.Fields("AD AE AF AG AL AM AO AR AT AU AZ BA BB BD BE BF BG BH BI BJ BN BO BR BS BT BW BY BZ CA CD CF CG CH CI CL CM CN CO CR CU CV CY CZ DE DJ DK DM DO DZ EC EE EG ER ES ET FI FJ FR GA GB GD GE GH GM GN GQ GR GT GW GY HN HR HT HU ID IE IL IN IQ IR IS IT JM JO JP KE KG KH KM KR KW KZ LA LB LK LR LS LT LU LV LY MA MC MD ME MG MK ML MM MN MR MT MU MV MW MX MY MZ NA NE NG NI NL NO NP NZ OM PA PE PG PH PK PL PT PY QA RO RS RU RW SA SC SD SE SG SI SK SL SM SN SO SR SV SY SZ TD TG TH TJ TM TN TO TR TT TZ UA UG US UY UZ VE VN YE ZA ZM ZW")
+	asked := 0
+	for round := 0; round < 3; round++ {
+		for k, rg := range regions {
+			l := langs[(k+round)%len(langs)]
+			if round > 0 {
+				l = langs[k%len(langs)] // the same locale strings again
+			}
+			loc := l + "-" + rg
+			b := prov.Bundle(loc)
+			asked++
+			if b == nil {
+				return &fw.Result{Verdict: fw.Violated, Key: "locale-fallback:no-bundle", Case: loc, Msg: fmt.Sprintf("no bundle for %s although %s.po exists (request %d of this provider)", loc, l, asked)}
+			}
+			var buf bytes.Buffer
+			if err := tofu.NewRenderer("loc.t").WithMessages(b).Execute(&buf, nil); err != nil || buf.String() != "["+l+"] hello" {
+				return &fw.Result{Verdict: fw.Violated, Key: "locale-fallback:wrong-catalogue", Case: map[string]interface{}{"locale": loc, "request": asked, "round": round},
+					Msg: fmt.Sprintf("request %d of one provider, locale %s: rendered %q (err %v), want %q", asked, loc, buf.String(), err, "["+l+"] hello")}
+			}
+		}
+	}
+	ctx.Obs("regional_locales_resolved", int64(asked))
+	ctx.Cell("many-locales")
+	return nil
+}
+
 func init() {
 	fw.Register(&fw.Prop{
 		ID:    "C11",
@@ -404,6 +460,11 @@ func init() {
 			return ""
 		},
 		Run: func(ctx *fw.Ctx, i int) fw.Result {
+			if i%100 == 37 {
+				if res := c11ManyLocales(ctx); res != nil {
+					return *res
+				}
+			}
 			r := ctx.Rng
 			b, msgs := c11Bundle(r)
 			src := ref.FileSrc(b.Files[0], ref.Layout{}, nil)
